@@ -389,6 +389,8 @@ def main(argv):
     for op, a, out, model in res.disagreements:
         disagreements.append((op, a, out, model))
     if disagreements:
+        for op, a, out, model in sorted(disagreements, key=lambda v: len(str(v[1])))[:4]:
+            log("DISAGREE %s | implementation: %s | model: %s" % (op.line(a)[:300], out[:200], model[:200]))
         names = sorted(set(op.name for op, _, _, _ in disagreements))
         broken.append("correspondence: model and implementation differ on op(s) %s (%d cases)"
                       % (",".join(names), len(disagreements)))
